@@ -1,9 +1,899 @@
-//! stub
-use super::*;
-pub struct DgramProg { pub driver: Drv }
-impl DgramProg {
-    pub fn to_json(&self) -> Value { json!({"family": "dgram", "transport": "x", "driver": self.driver.name()}) }
-    pub fn from_json(v: &Value) -> Option<DgramProg> { Some(DgramProg { driver: Drv::parse(js(v, "driver")) }) }
+//! C14 datagram programs: UDP over loopback, one receiver socket, one or two
+//! sender sockets. Every datagram carries `magic | id`; the receiver checks
+//! each received datagram against the table of sent ones.
+
+use std::{net::SocketAddr, os::fd::AsRawFd};
+
+use compio_buf::{BufResult, IntoInner, IoBuf, IoVectoredBuf, bytes::Bytes};
+use compio_io::ancillary::ReturnFlags;
+use compio_net::UdpSocket;
+use compio_runtime::{CancelToken, ResumeUnwind, StreamExt as _};
+use futures_util::StreamExt as _;
+
+use super::{
+    bufs::*,
+    stream::{loop_addr, trace},
+    *,
+};
+
+macro_rules! dkinds {
+    ($name:ident { $($v:ident = $s:expr),* $(,)? }) => {
+        #[derive(Clone, Copy, PartialEq, Eq, Debug, PartialOrd, Ord)]
+        pub enum $name { $($v),* }
+        impl $name {
+            pub const ALL: &'static [$name] = &[$($name::$v),*];
+            pub fn name(self) -> &'static str { match self { $($name::$v => $s),* } }
+            pub fn parse(s: &str) -> Option<$name> { match s { $($s => Some($name::$v),)* _ => None } }
+        }
+    };
 }
-pub fn run(_p: &DgramProg, _lim: &Limits) -> Outcome { Outcome { sig: "dgram/stub".into(), ctx: Rc::new(Ctx::default()) } }
-pub fn generate(_r: &mut Rng, g: &GenCfg) -> DgramProg { DgramProg { driver: g.drv } }
+
+dkinds!(DSK {
+    Send = "send",
+    SendVec = "send_vec",
+    To = "send_to",
+    ToVec = "send_to_vec",
+    Msg = "send_msg",
+    MsgVec = "send_msg_vec",
+    Zc = "zc",
+    ZcVec = "zc_vec",
+    ToZc = "to_zc",
+    ToZcVec = "to_zc_vec",
+    MsgZc = "msg_zc",
+    MsgZcVec = "msg_zc_vec",
+});
+
+dkinds!(DRK {
+    Recv = "recv",
+    RecvVec = "recv_vec",
+    Managed = "managed",
+    Multi = "multi",
+    From = "from",
+    FromVec = "from_vec",
+    FromManaged = "from_managed",
+    FromMulti = "from_multi",
+    Msg = "msg",
+    MsgVec = "msg_vec",
+    MsgManaged = "msg_managed",
+    MsgMulti = "msg_multi",
+});
+
+impl DSK {
+    fn needs_connect(self) -> bool {
+        matches!(self, DSK::Send | DSK::SendVec | DSK::Zc | DSK::ZcVec)
+    }
+}
+
+impl DRK {
+    fn has_addr(self) -> bool {
+        !matches!(self, DRK::Recv | DRK::RecvVec | DRK::Managed | DRK::Multi)
+    }
+
+    fn has_flags(self) -> bool {
+        matches!(self, DRK::Msg | DRK::MsgVec | DRK::MsgManaged | DRK::MsgMulti)
+    }
+}
+
+const MAGIC: [u8; 4] = *b"C14D";
+pub const HDR: usize = 8;
+const CLEN: usize = 64;
+
+#[derive(Clone, Debug)]
+pub struct Msg {
+    pub sender: usize,
+    pub kind: DSK,
+    pub len: usize,
+    pub shape: usize,
+    pub cuts: Vec<u16>,
+    pub ctl: usize,
+}
+
+#[derive(Clone, Debug)]
+pub struct DRecvOp {
+    pub kind: DRK,
+    pub cap: usize,
+    pub shape: usize,
+    pub cuts: Vec<u16>,
+    pub take: usize,
+}
+
+#[derive(Clone, Debug)]
+pub struct DgramProg {
+    pub driver: Drv,
+    pub v6: bool,
+    pub from_std: bool,
+    pub connected: Vec<bool>,
+    pub pktinfo: bool,
+    pub pool_len: usize,
+    pub pool_size: usize,
+    pub salt: u64,
+    pub msgs: Vec<Msg>,
+    pub recvs: Vec<DRecvOp>,
+    pub recv_delay: usize,
+}
+
+impl DgramProg {
+    pub fn to_json(&self) -> Value {
+        json!({
+            "family": "dgram", "transport": "udp", "driver": self.driver.name(), "v6": self.v6, "from_std": self.from_std,
+            "connected": self.connected, "pktinfo": self.pktinfo, "pool_len": self.pool_len, "pool_size": self.pool_size,
+            "salt": self.salt, "recv_delay": self.recv_delay,
+            "msgs": self.msgs.iter().map(|m| json!({"sender": m.sender, "kind": m.kind.name(), "len": m.len,
+                "shape": m.shape, "cuts": m.cuts, "ctl": m.ctl})).collect::<Vec<_>>(),
+            "recvs": self.recvs.iter().map(|o| json!({"kind": o.kind.name(), "cap": o.cap, "shape": o.shape,
+                "cuts": o.cuts, "take": o.take})).collect::<Vec<_>>(),
+        })
+    }
+
+    pub fn from_json(v: &Value) -> Option<DgramProg> {
+        let cuts = |o: &Value| -> Vec<u16> {
+            o["cuts"].as_array().map(|a| a.iter().map(|x| x.as_u64().unwrap_or(0) as u16).collect()).unwrap_or_default()
+        };
+        let mut msgs = Vec::new();
+        for o in v["msgs"].as_array()? {
+            msgs.push(Msg {
+                sender: ju(o, "sender"),
+                kind: DSK::parse(js(o, "kind"))?,
+                len: ju(o, "len").max(HDR),
+                shape: ju(o, "shape"),
+                cuts: cuts(o),
+                ctl: ju(o, "ctl"),
+            });
+        }
+        let mut recvs = Vec::new();
+        for o in v["recvs"].as_array()? {
+            recvs.push(DRecvOp {
+                kind: DRK::parse(js(o, "kind"))?,
+                cap: ju(o, "cap").max(HDR),
+                shape: ju(o, "shape"),
+                cuts: cuts(o),
+                take: ju(o, "take"),
+            });
+        }
+        let connected: Vec<bool> = v["connected"].as_array()?.iter().map(|b| b.as_bool().unwrap_or(false)).collect();
+        if recvs.is_empty() || connected.is_empty() || msgs.iter().any(|m| m.sender >= connected.len()) {
+            return None;
+        }
+        Some(DgramProg {
+            driver: Drv::parse(js(v, "driver")),
+            v6: jb(v, "v6"),
+            from_std: jb(v, "from_std"),
+            connected,
+            pktinfo: jb(v, "pktinfo"),
+            pool_len: ju(v, "pool_len").max(512),
+            pool_size: ju(v, "pool_size").max(2),
+            salt: v["salt"].as_u64().unwrap_or(1),
+            msgs,
+            recvs,
+            recv_delay: ju(v, "recv_delay"),
+        })
+    }
+}
+
+fn payload(salt: u64, id: usize, len: usize) -> Vec<u8> {
+    let mut v = Vec::with_capacity(len);
+    v.extend_from_slice(&MAGIC);
+    v.extend_from_slice(&(id as u32).to_le_bytes());
+    let s = salt ^ ((id as u64 + 1) << 32);
+    for i in HDR..len {
+        v.push(pat(s, i as u64));
+    }
+    v.truncate(len);
+    v
+}
+
+struct State {
+    tag: String,
+    n: usize,
+    received: Cell<usize>,
+    sent: Cell<usize>,
+    senders_done: Cell<bool>,
+    recv_done: Cell<bool>,
+    rfd: Cell<RawFd>,
+    in_recv: Cell<Option<DRK>>,
+    /// estimated receive-queue charge of datagrams sent and not yet received
+    inflight: Cell<usize>,
+    credit: Event,
+    /// charge per datagram id
+    lens: Vec<usize>,
+    released: RefCell<Vec<bool>>,
+}
+
+impl State {
+    /// A datagram left the kernel queue: give its charge back (once).
+    fn release(&self, data: &[u8]) {
+        if data.len() >= HDR && data[..4] == MAGIC {
+            let id = u32::from_le_bytes([data[4], data[5], data[6], data[7]]) as usize;
+            let mut rel = self.released.borrow_mut();
+            if id < rel.len() && !rel[id] {
+                rel[id] = true;
+                self.inflight.set(self.inflight.get().saturating_sub(self.lens[id]));
+                self.credit.notify();
+            }
+        }
+    }
+}
+
+/// Pessimistic estimate of what one datagram charges to the receive queue.
+/// Zero-copy sends reach the loopback receiver as page fragments (one page
+/// per part at least).
+fn charge(m: &Msg) -> usize {
+    let zc = matches!(m.kind, DSK::Zc | DSK::ZcVec | DSK::ToZc | DSK::ToZcVec | DSK::MsgZc | DSK::MsgZcVec);
+    2 * m.len + 2304 + if zc { 4096 * (m.cuts.len() + 3) } else { 0 }
+}
+
+fn raw_cmsg(level: i32, ty: i32, val: i32) -> Vec<u8> {
+    let space = unsafe { libc::CMSG_SPACE(4) } as usize;
+    let mut v = vec![0u8; space];
+    let hdr = libc::cmsghdr { cmsg_len: unsafe { libc::CMSG_LEN(4) } as _, cmsg_level: level, cmsg_type: ty };
+    unsafe {
+        std::ptr::copy_nonoverlapping(&hdr as *const _ as *const u8, v.as_mut_ptr(), size_of::<libc::cmsghdr>());
+    }
+    let off = unsafe { libc::CMSG_LEN(0) } as usize;
+    v[off..off + 4].copy_from_slice(&val.to_ne_bytes());
+    v
+}
+
+fn dctl(v6: bool, variant: usize) -> Vec<u8> {
+    if variant % 2 == 0 {
+        Vec::new()
+    } else if v6 {
+        raw_cmsg(libc::IPPROTO_IPV6, libc::IPV6_TCLASS, 0x10)
+    } else {
+        raw_cmsg(libc::IPPROTO_IP, libc::IP_TOS, 0x10)
+    }
+}
+
+async fn send_one(
+    ctx: &Ctx,
+    st: &State,
+    sock: &UdpSocket,
+    to: SocketAddr,
+    v6: bool,
+    m: &Msg,
+    data: Vec<u8>,
+) -> io::Result<usize> {
+    let expect = data.clone();
+    let zc = |kind: DSK, back: &[u8]| {
+        if back != &expect[..] {
+            ctx.fail(
+                format!("C14/dgram/zc-buffer-changed/{}/{}", st.tag, kind.name()),
+                "the buffer handed back by the zero-copy buffer future differs from the one submitted".into(),
+            );
+        }
+    };
+    let k = m.kind;
+    match k {
+        DSK::Send => sbuf!(m.shape, data, |b| sock.send(b).await.0),
+        DSK::SendVec => svec!(m.shape, data, &m.cuts, |b| sock.send_vectored(b).await.0),
+        DSK::To => sbuf!(m.shape, data, |b| sock.send_to(b, to).await.0),
+        DSK::ToVec => svec!(m.shape, data, &m.cuts, |b| sock.send_to_vectored(b, to).await.0),
+        DSK::Msg => sbuf!(m.shape, data, |b| sock.send_msg(b, dctl(v6, m.ctl), to).await.0),
+        DSK::MsgVec => svec!(m.shape, data, &m.cuts, |b| sock.send_msg_vectored(b, dctl(v6, m.ctl), to).await.0),
+        DSK::Zc => sbuf!(m.shape, data, |b| {
+            let BufResult(r, fut) = sock.send_zerocopy(b).await;
+            let back = fut.await;
+            zc(k, back.as_init());
+            r
+        }),
+        DSK::ZcVec => svec!(m.shape, data, &m.cuts, |b| {
+            let BufResult(r, fut) = sock.send_zerocopy_vectored(b).await;
+            let back = fut.await;
+            zc(k, &flat(&back));
+            r
+        }),
+        DSK::ToZc => sbuf!(m.shape, data, |b| {
+            let BufResult(r, fut) = sock.send_to_zerocopy(b, to).await;
+            let back = fut.await;
+            zc(k, back.as_init());
+            r
+        }),
+        DSK::ToZcVec => svec!(m.shape, data, &m.cuts, |b| {
+            let BufResult(r, fut) = sock.send_to_zerocopy_vectored(b, to).await;
+            let back = fut.await;
+            zc(k, &flat(&back));
+            r
+        }),
+        DSK::MsgZc => sbuf!(m.shape, data, |b| {
+            let BufResult(r, fut) = sock.send_msg_zerocopy(b, dctl(v6, m.ctl), to).await;
+            let (back, _c) = fut.await;
+            zc(k, back.as_init());
+            r
+        }),
+        DSK::MsgZcVec => svec!(m.shape, data, &m.cuts, |b| {
+            let BufResult(r, fut) = sock.send_msg_zerocopy_vectored(b, dctl(v6, m.ctl), to).await;
+            let (back, _c) = fut.await;
+            zc(k, &flat(&back));
+            r
+        }),
+    }
+}
+
+async fn senders(ctx: &Ctx, st: &State, p: &DgramProg, socks: &[UdpSocket], to: SocketAddr) {
+    for (id, m) in p.msgs.iter().enumerate() {
+        // never have more in flight than the receive queue can hold: loss is then impossible
+        loop {
+            if ctx.stopped() {
+                return;
+            }
+            let g = st.credit.generation();
+            if st.inflight.get() + charge(m) <= 100_000 || st.inflight.get() == 0 {
+                break;
+            }
+            st.credit.changed(g).await;
+        }
+        let data = payload(p.salt, id, m.len);
+        st.inflight.set(st.inflight.get() + charge(m));
+        ctx.kind(m.kind.name());
+        let r = send_one(ctx, st, &socks[m.sender], to, p.v6, m, data).await;
+        ctx.tick();
+        if trace() {
+            eprintln!("dgram send #{id} {} len {} -> {r:?}", m.kind.name(), m.len);
+        }
+        match r {
+            Ok(n) if n == m.len => {}
+            Ok(n) => {
+                ctx.fail(
+                    format!("C14/dgram/send-length/{}/{}", st.tag, m.kind.name()),
+                    format!("{} of a {} byte datagram reported {n} bytes", m.kind.name(), m.len),
+                );
+                return;
+            }
+            Err(e) => {
+                ctx.fail(
+                    format!("C14/dgram/send-error/{}/{}/{}", st.tag, m.kind.name(), errname(&e)),
+                    format!("{} of a {} byte datagram failed: {e}", m.kind.name(), m.len),
+                );
+                return;
+            }
+        }
+        st.sent.set(id + 1);
+    }
+    st.senders_done.set(true);
+    ctx.tick();
+}
+
+struct Rx {
+    data: Vec<u8>,
+    addr: Option<Option<SocketAddr>>,
+    flags: Option<ReturnFlags>,
+    /// exact capacity that was offered, when known
+    cap: Option<usize>,
+    /// control bytes, for calls that return them
+    control: Option<Vec<u8>>,
+}
+
+enum RxErr {
+    Fail(&'static str, String),
+    Io(io::Error),
+}
+
+impl From<RFail> for RxErr {
+    fn from(f: RFail) -> Self {
+        RxErr::Fail(f.0, f.1)
+    }
+}
+
+fn busy(e: &io::Error) -> bool {
+    e.kind() == io::ErrorKind::ResourceBusy || e.raw_os_error() == Some(libc::ENOBUFS)
+}
+
+fn ctl_out(c: &Vec<u8>, clen: usize) -> Result<Vec<u8>, RFail> {
+    if clen > c.capacity() {
+        return Err(("control-overlong", format!("control length {clen} reported for a {} byte control buffer", c.capacity())));
+    }
+    if let Some(i) = tail_damage(c, clen) {
+        return Err(("control-len-lost", format!("the control buffer was written up to at least byte {i} but a control length of {clen} was reported")));
+    }
+    if c.len() != clen {
+        return Err(("control-buf-len", format!("control buffer length is {} but control length {clen} was reported", c.len())));
+    }
+    Ok(raw(c)[..clen].to_vec())
+}
+
+async fn recv_one(
+    ctx: &Ctx,
+    st: &State,
+    sock: &UdpSocket,
+    op: &DRecvOp,
+    remaining: usize,
+    pool_len: usize,
+    iour: bool,
+) -> Result<Vec<Rx>, RxErr> {
+    let cap = op.cap.max(HDR);
+    let mlen = if op.shape % 3 == 0 { 0 } else { cap };
+    let mcap = if mlen == 0 { pool_len } else { mlen.min(pool_len) };
+    let sa = |a: SocketAddr| Some(Some(a));
+    match op.kind {
+        DRK::Recv => {
+            let (r, v, a, pl, c) = rbuf!(op.shape, cap, |b| sock.recv(b).await);
+            let n = r.map_err(RxErr::Io)?;
+            let data = check_single(n, &v, a, pl, c)?;
+            Ok(vec![Rx { data, addr: None, flags: None, cap: Some(c), control: None }])
+        }
+        DRK::From => {
+            let (r, v, a, pl, c) = rbuf!(op.shape, cap, |b| sock.recv_from(b).await);
+            let (n, addr) = r.map_err(RxErr::Io)?;
+            let data = check_single(n, &v, a, pl, c)?;
+            Ok(vec![Rx { data, addr: sa(addr), flags: None, cap: Some(c), control: None }])
+        }
+        DRK::Msg => {
+            let mut ctl = None;
+            let (r, v, a, pl, c) = rbuf!(op.shape, cap, |b| {
+                let BufResult(r, (b, c)) = sock.recv_msg(b, qvec(CLEN, 0)).await;
+                ctl = Some(c);
+                BufResult(r, b)
+            });
+            let (n, clen, addr, flags) = r.map_err(RxErr::Io)?;
+            let control = ctl_out(&ctl.unwrap(), clen)?;
+            let data = check_single(n, &v, a, pl, c)?;
+            Ok(vec![Rx { data, addr: sa(addr), flags: Some(flags), cap: Some(c), control: Some(control) }])
+        }
+        DRK::RecvVec => {
+            let id = |n: usize, tot: usize| (n, tot);
+            let r = rvec!(op.shape, cap, &op.cuts, id, |b| sock.recv_vectored(b).await);
+            let (data, tot) = r.map_err(RxErr::Io)?;
+            Ok(vec![Rx { data: data?, addr: None, flags: None, cap: Some(tot), control: None }])
+        }
+        DRK::FromVec => {
+            let id = |x: (usize, SocketAddr), tot: usize| (x.0, (x.1, tot));
+            let r = rvec!(op.shape, cap, &op.cuts, id, |b| sock.recv_from_vectored(b).await);
+            let (data, (addr, tot)) = r.map_err(RxErr::Io)?;
+            Ok(vec![Rx { data: data?, addr: sa(addr), flags: None, cap: Some(tot), control: None }])
+        }
+        DRK::MsgVec => {
+            let id = |x: (usize, usize, SocketAddr, ReturnFlags), tot: usize| (x.0, (x.1, x.2, x.3, tot));
+            let mut ctl = None;
+            let r = rvec!(op.shape, cap, &op.cuts, id, |b| {
+                let BufResult(r, (b, c)) = sock.recv_msg_vectored(b, qvec(CLEN, 0)).await;
+                ctl = Some(c);
+                BufResult(r, b)
+            });
+            let (data, (clen, addr, flags, tot)) = r.map_err(RxErr::Io)?;
+            let control = ctl_out(&ctl.unwrap(), clen)?;
+            Ok(vec![Rx { data: data?, addr: sa(addr), flags: Some(flags), cap: Some(tot), control: Some(control) }])
+        }
+        DRK::Managed | DRK::FromManaged | DRK::MsgManaged => {
+            let mut spins = 0;
+            loop {
+                let r = match op.kind {
+                    DRK::Managed => sock.recv_managed(mlen).await.map(|o| o.map(|b| (b.to_vec(), None, None, None))),
+                    DRK::FromManaged => {
+                        sock.recv_from_managed(mlen).await.map(|o| o.map(|(b, a)| (b.to_vec(), sa(a), None, None)))
+                    }
+                    _ => match sock.recv_msg_managed(mlen, qvec(CLEN, 0)).await {
+                        Ok(Some((b, c, a, f))) => {
+                            let control = ctl_out(&c, c.len())?;
+                            Ok(Some((b.to_vec(), sa(a), Some(f), Some(control))))
+                        }
+                        Ok(None) => Ok(None),
+                        Err(e) => Err(e),
+                    },
+                };
+                match r {
+                    Ok(Some((data, addr, flags, control))) => {
+                        return Ok(vec![Rx { data, addr, flags, cap: Some(mcap), control }]);
+                    }
+                    Ok(None) => {
+                        return Err(RxErr::Fail("empty-result", "the managed receive returned None (end-of-stream) on a datagram socket although no empty datagram was sent".into()));
+                    }
+                    Err(e) if busy(&e) && spins < 5000 => {
+                        spins += 1;
+                        ctx.count("recv_pool_busy", 1);
+                        yields(ctx, 1).await;
+                    }
+                    Err(e) => return Err(RxErr::Io(e)),
+                }
+            }
+        }
+        DRK::Multi | DRK::FromMulti | DRK::MsgMulti => {
+            let ct = CancelToken::new();
+            let want = op.take.clamp(1, remaining.max(1));
+            let mut out = Vec::new();
+            let mut cancelled = false;
+            let mut spins = 0;
+            macro_rules! pump {
+                ($s:expr, $conv:expr) => {{
+                    let mut s = pin!($s.with_cancel(ct.clone()));
+                    loop {
+                        match s.next().await {
+                            None => {
+                                if !cancelled {
+                                    return Err(RxErr::Fail("multishot-ended", "the multishot receive stream ended by itself on a datagram socket".into()));
+                                }
+                                break;
+                            }
+                            Some(Ok(item)) => {
+                                let rx: Rx = $conv(item);
+                                if rx.data.len() < HDR {
+                                    // cannot be a sent datagram: let the check report it right away
+                                    out.push(rx);
+                                    return Ok(out);
+                                }
+                                st.release(&rx.data);
+                                out.push(rx);
+                                ctx.tick();
+                                ctx.floor("dgram-multishot-recv");
+                                if !cancelled && out.len() >= want {
+                                    cancelled = true;
+                                    ct.clone().cancel();
+                                }
+                            }
+                            Some(Err(e)) if busy(&e) && spins < 5000 => {
+                                spins += 1;
+                                ctx.count("recv_pool_busy", 1);
+                                yields(ctx, 1).await;
+                            }
+                            Some(Err(e)) if cancelled && is_cancelled(&e) => break,
+                            Some(Err(e)) => return Err(RxErr::Io(e)),
+                        }
+                    }
+                }};
+            }
+            match op.kind {
+                DRK::Multi => pump!(sock.recv_multi(mlen), |b: compio_driver::BufferRef| Rx {
+                    data: b.to_vec(),
+                    addr: None,
+                    flags: None,
+                    cap: Some(mcap),
+                    control: None
+                }),
+                DRK::FromMulti => pump!(sock.recv_from_multi(), |m: compio_driver::op::RecvFromMultiResult| Rx {
+                    data: m.data().to_vec(),
+                    addr: Some(m.addr().and_then(|a| a.as_socket())),
+                    flags: None,
+                    cap: if iour { None } else { Some(pool_len) },
+                    control: None
+                }),
+                _ => pump!(sock.recv_msg_multi(CLEN), |m: compio_driver::op::RecvMsgMultiResult| Rx {
+                    data: m.data().to_vec(),
+                    addr: Some(m.addr().and_then(|a| a.as_socket())),
+                    flags: Some(m.flags()),
+                    cap: if iour { None } else { Some(pool_len) },
+                    control: Some(m.ancillary().to_vec())
+                }),
+            }
+            Ok(out)
+        }
+    }
+}
+
+/// Does the control data hold an IP_PKTINFO for 127.0.0.1?
+fn has_pktinfo(c: &[u8]) -> bool {
+    let hl = unsafe { libc::CMSG_LEN(0) } as usize;
+    let mut off = 0;
+    while off + size_of::<libc::cmsghdr>() <= c.len() {
+        let hdr: libc::cmsghdr = unsafe { std::ptr::read_unaligned(c.as_ptr().add(off) as *const libc::cmsghdr) };
+        let len = hdr.cmsg_len as usize;
+        if len < hl || off + len > c.len() {
+            return false;
+        }
+        if hdr.cmsg_level == libc::IPPROTO_IP && hdr.cmsg_type == libc::IP_PKTINFO && len >= hl + 12 {
+            let d = &c[off + hl..off + hl + 12];
+            // ipi_ifindex, ipi_spec_dst, ipi_addr
+            return d[8..12] == [127, 0, 0, 1];
+        }
+        off += ((len + 7) & !7).max(1);
+    }
+    false
+}
+
+async fn receiver(ctx: &Ctx, st: &State, p: &DgramProg, sock: &UdpSocket, from: &[SocketAddr]) {
+    st.rfd.set(sock.as_raw_fd());
+    yields(ctx, p.recv_delay).await;
+    let mut seen = vec![false; p.msgs.len()];
+    let mut i = 0usize;
+    let iour = p.driver == Drv::Iour;
+    while st.received.get() < st.n && !ctx.stopped() {
+        let op = &p.recvs[i % p.recvs.len()];
+        i += 1;
+        let k = op.kind;
+        st.in_recv.set(Some(k));
+        ctx.kind(k.name());
+        let r = recv_one(ctx, st, sock, op, st.n - st.received.get(), p.pool_len, iour).await;
+        st.in_recv.set(None);
+        ctx.tick();
+        let items = match r {
+            Ok(v) => v,
+            Err(RxErr::Fail(rule, what)) => {
+                ctx.fail(format!("C14/dgram/{rule}/{}/r={}", st.tag, k.name()), format!("{}: {what}", k.name()));
+                return;
+            }
+            Err(RxErr::Io(e)) if busy(&e) => {
+                ctx.give_up(format!("buffer pool exhausted during {}", k.name()));
+                return;
+            }
+            Err(RxErr::Io(e)) => {
+                ctx.fail(
+                    format!("C14/dgram/recv-error/{}/r={}/{}", st.tag, k.name(), errname(&e)),
+                    format!("{} after {} of {} datagrams failed: {e}", k.name(), st.received.get(), st.n),
+                );
+                return;
+            }
+        };
+        for rx in items {
+            if trace() {
+                eprintln!("dgram recv {} -> {} bytes addr {:?} flags {:?} cap {:?}", k.name(), rx.data.len(), rx.addr, rx.flags, rx.cap);
+            }
+            let bad = |rule: &str, what: String| {
+                ctx.fail(format!("C14/dgram/{rule}/{}/r={}", st.tag, k.name()), format!("{}: {what}", k.name()));
+            };
+            let d = &rx.data;
+            if d.len() < HDR || d[..4] != MAGIC {
+                return bad(
+                    "not-a-sent-datagram",
+                    format!("received {} bytes {:02x?} which is not (the prefix of) any datagram sent; every sent datagram and every offered buffer has at least {HDR} bytes", d.len(), &d[..d.len().min(16)]),
+                );
+            }
+            let id = u32::from_le_bytes([d[4], d[5], d[6], d[7]]) as usize;
+            if id >= p.msgs.len() {
+                return bad("not-a-sent-datagram", format!("datagram id {id} was never sent"));
+            }
+            let m = &p.msgs[id];
+            let sk = m.kind.name();
+            if seen[id] {
+                return bad("duplicate", format!("datagram {id} (sent by {sk}) was delivered twice"));
+            }
+            seen[id] = true;
+            let exp = payload(p.salt, id, m.len);
+            if d.len() > m.len || d[..] != exp[..d.len()] {
+                let at = (0..d.len().min(m.len)).find(|&j| d[j] != exp[j]).unwrap_or(m.len);
+                ctx.fail(
+                    format!("C14/dgram/corrupt/{}/s={sk}/r={}", st.tag, k.name()),
+                    format!("datagram {id} ({} bytes, sent by {sk}) arrived as {} bytes differing at byte {at}", m.len, d.len()),
+                );
+                return;
+            }
+            if let Some(cap) = rx.cap {
+                if d.len() != m.len.min(cap) {
+                    return bad(
+                        "wrong-length",
+                        format!("datagram {id} has {} bytes, the buffer offered {cap}: expected {} bytes, got {}", m.len, m.len.min(cap), d.len()),
+                    );
+                }
+            }
+            let truncated = d.len() < m.len;
+            if let Some(f) = rx.flags {
+                if f.contains(ReturnFlags::TRUNC) != truncated {
+                    return bad(
+                        "trunc-flag",
+                        format!("datagram {id} of {} bytes was delivered as {} bytes but the reported flags are {f:?}", m.len, d.len()),
+                    );
+                }
+                if truncated {
+                    ctx.floor("dgram-truncated-flagged");
+                }
+            } else if k.has_flags() {
+                return bad("flags-missing", "no flags reported".into());
+            }
+            if truncated {
+                ctx.count("dgram_truncated", 1);
+            }
+            if k.has_addr() {
+                match rx.addr {
+                    Some(Some(a)) if a == from[m.sender] => ctx.floor("dgram-source-address"),
+                    Some(a) => {
+                        return bad(
+                            "wrong-source",
+                            format!("datagram {id} was sent from {} but the reported source address is {a:?}", from[m.sender]),
+                        );
+                    }
+                    None => return bad("wrong-source", "no source address reported".into()),
+                }
+            }
+            if p.pktinfo && !p.v6 {
+                if let Some(c) = &rx.control {
+                    if !has_pktinfo(c) {
+                        return bad(
+                            "control-missing",
+                            format!("IP_PKTINFO is enabled on the socket but the {} control bytes returned hold no packet info for 127.0.0.1", c.len()),
+                        );
+                    }
+                    ctx.count("dgram_pktinfo_seen", 1);
+                }
+            }
+            st.received.set(st.received.get() + 1);
+            st.release(d);
+            ctx.tick();
+        }
+    }
+    st.recv_done.set(true);
+    ctx.tick();
+}
+
+fn sock_drops(fd: RawFd) -> u32 {
+    let mut m = [0u32; 9];
+    let mut l = 36 as libc::socklen_t;
+    let r = unsafe { libc::getsockopt(fd, libc::SOL_SOCKET, 55 /* SO_MEMINFO */, m.as_mut_ptr() as *mut _, &mut l) };
+    if r == 0 { m[8] } else { 0 }
+}
+
+pub fn run(p: &DgramProg, lim: &Limits) -> Outcome {
+    let ctx = Rc::new(Ctx::default());
+    let tag = format!("udp/{}", p.driver.name());
+    let st = Rc::new(State {
+        tag: tag.clone(),
+        n: p.msgs.len(),
+        received: Cell::new(0),
+        sent: Cell::new(0),
+        senders_done: Cell::new(false),
+        recv_done: Cell::new(false),
+        rfd: Cell::new(-1),
+        in_recv: Cell::new(None),
+        inflight: Cell::new(0),
+        credit: Event::default(),
+        lens: p.msgs.iter().map(charge).collect(),
+        released: RefCell::new(vec![false; p.msgs.len()]),
+    });
+    let finish = |ctx: &Rc<Ctx>| {
+        let kinds = ctx.kinds.borrow();
+        let s: Vec<&str> = kinds.iter().copied().filter(|k| DSK::parse(k).is_some()).collect();
+        let r: Vec<&str> = kinds.iter().copied().filter(|k| DRK::parse(k).is_some()).collect();
+        let trunc = ctx.counters.borrow().get("dgram_truncated").copied().unwrap_or(0) > 0;
+        Outcome {
+            sig: format!("dgram/{tag}/s={}/r={}/{}", s.join("+"), r.join("+"), if trunc { "truncating" } else { "fitting" }),
+            ctx: ctx.clone(),
+        }
+    };
+    let rt = match build_rt(&RtCfg { drv: p.driver, pool_len: p.pool_len, pool_size: p.pool_size as u16 }) {
+        Ok(rt) => rt,
+        Err(e) => {
+            ctx.give_up(format!("runtime build failed: {e}"));
+            return finish(&ctx);
+        }
+    };
+    let main = {
+        let ctx = ctx.clone();
+        let st = st.clone();
+        let p = p.clone();
+        async move {
+            let mk = async |_: usize| -> io::Result<UdpSocket> {
+                if p.from_std {
+                    UdpSocket::from_std(std::net::UdpSocket::bind(loop_addr(p.v6))?)
+                } else {
+                    UdpSocket::bind(loop_addr(p.v6)).await
+                }
+            };
+            let setup: io::Result<(UdpSocket, Vec<UdpSocket>)> = async {
+                let r = mk(0).await?;
+                if p.pktinfo && !p.v6 {
+                    let one: i32 = 1;
+                    unsafe {
+                        libc::setsockopt(r.as_raw_fd(), libc::IPPROTO_IP, libc::IP_PKTINFO, &one as *const i32 as *const _, 4);
+                    }
+                }
+                let to = r.local_addr()?;
+                let mut ss = Vec::new();
+                for (i, c) in p.connected.iter().enumerate() {
+                    let s = mk(i + 1).await?;
+                    if *c {
+                        s.connect(to).await?;
+                    }
+                    ss.push(s);
+                }
+                Ok((r, ss))
+            }
+            .await;
+            let (r, ss) = match setup {
+                Ok(x) => x,
+                Err(e) => {
+                    ctx.give_up(format!("setup: {e}"));
+                    return;
+                }
+            };
+            let to = r.local_addr().unwrap();
+            let from: Vec<SocketAddr> = ss.iter().map(|s| s.local_addr().unwrap()).collect();
+            let (c1, s1, p1) = (ctx.clone(), st.clone(), p.clone());
+            let tx = compio_runtime::spawn(async move { senders(&c1, &s1, &p1, &ss, to).await });
+            let (c2, s2, p2) = (ctx.clone(), st.clone(), p.clone());
+            let rx = compio_runtime::spawn(async move { receiver(&c2, &s2, &p2, &r, &from).await });
+            tx.await.resume_unwind();
+            rx.await.resume_unwind();
+        }
+    };
+    let stall = {
+        let st = st.clone();
+        move || {
+            if st.recv_done.get() || st.in_recv.get().is_none() {
+                return Stall::KeepWaiting;
+            }
+            let rk = st.in_recv.get().map(|k| k.name()).unwrap_or("idle");
+            let ev = poll_fd(st.rfd.get(), libc::POLLIN);
+            if ev & libc::POLLIN != 0 {
+                return Stall::Violation(Fail {
+                    sig: format!("C14/dgram/stall-readable/{}/r={rk}", st.tag),
+                    what: format!(
+                        "receiver blocked in {rk} after {} of {} datagrams made no progress over the idle bound although poll() reports the socket readable",
+                        st.received.get(), st.n
+                    ),
+                });
+            }
+            if st.senders_done.get() {
+                let drops = sock_drops(st.rfd.get());
+                if drops > 0 {
+                    return Stall::Inconclusive(format!("kernel dropped {drops} datagrams"));
+                }
+                return Stall::Violation(Fail {
+                    sig: format!("C14/dgram/lost/{}/r={rk}", st.tag),
+                    what: format!(
+                        "all {} datagrams were sent, {} were delivered to the receiver, the socket holds nothing more and the kernel counts no drop: a datagram was consumed without being delivered (receiver now waits in {rk})",
+                        st.n, st.received.get()
+                    ),
+                });
+            }
+            Stall::KeepWaiting
+        }
+    };
+    drive(&rt, &ctx, lim, &|| 0, &stall, main);
+    drop(rt);
+    ctx.count("dgram_programs", 1);
+    ctx.count("dgram_datagrams", st.received.get() as i64);
+    finish(&ctx)
+}
+
+pub fn generate(r: &mut Rng, g: &GenCfg) -> DgramProg {
+    let nsend = r.range(1, 2);
+    let connected: Vec<bool> = (0..nsend).map(|_| r.chance(1, 2)).collect();
+    let pool_len = *r.pick(&[512usize, 1024, 4096, 8192]);
+    let pool_size = *r.pick(&[2usize, 4, 8, 16]);
+    let mut sk: Vec<DSK> = DSK::ALL.to_vec();
+    r.shuffle(&mut sk);
+    sk.truncate(r.range(1, 4));
+    let mut rk: Vec<DRK> = DRK::ALL.to_vec();
+    r.shuffle(&mut rk);
+    rk.truncate(r.range(1, 4));
+    let n = r.range(1, 24 * g.scale);
+    let msgs = (0..n)
+        .map(|_| {
+            let sender = r.below(nsend);
+            let mut kind = *r.pick(&sk);
+            if kind.needs_connect() && !connected[sender] {
+                kind = match kind {
+                    DSK::Send => DSK::To,
+                    DSK::SendVec => DSK::ToVec,
+                    DSK::Zc => DSK::ToZc,
+                    _ => DSK::ToZcVec,
+                };
+            }
+            Msg {
+                sender,
+                kind,
+                len: match r.below(8) {
+                    0 => HDR,
+                    1..=4 => r.range(HDR, 1400),
+                    5..=6 => r.range(1400, 9000),
+                    _ => r.range(9000, 30000),
+                },
+                shape: r.below(20),
+                cuts: (0..r.below(4)).map(|_| r.below(65536) as u16).collect(),
+                ctl: r.below(2),
+            }
+        })
+        .collect();
+    let recvs = (0..r.range(1, 6))
+        .map(|_| DRecvOp {
+            kind: *r.pick(&rk),
+            cap: match r.below(8) {
+                0 => r.range(HDR, 32),
+                1..=3 => r.range(32, 1500),
+                _ => r.range(1500, 40000),
+            },
+            shape: r.below(12),
+            cuts: (0..r.below(4)).map(|_| r.below(65536) as u16).collect(),
+            take: r.range(1, 4),
+        })
+        .collect();
+    DgramProg {
+        driver: g.drv,
+        v6: g.v6 && r.chance(1, 3),
+        from_std: r.chance(1, 3),
+        connected,
+        pktinfo: r.chance(1, 2),
+        pool_len,
+        pool_size,
+        salt: r.next_u64() | 1,
+        msgs,
+        recvs,
+        recv_delay: *r.pick(&[0, 0, 3, 30]),
+    }
+}
